@@ -850,6 +850,14 @@ func C14(c *Ctx) *kf.Report {
 		return rep
 	}
 	rep.Coverage["traces_validated_against_impl"] = n1 + n2 + n3
+	sc, _ := rep.Coverage["protowire_script_cases"].(int)
+	mu, _ := rep.Coverage["json_decoder_mutants"].(int)
+	rep.Coverage["evaluations"] = n1 + n2 + n3 + sc + mu
+	rep.Coverage["samples"] = []any{
+		map[string]any{"protowire_tokens": []string{"G(", "V", "M(", "EG8", ")M", "EG7"}, "bytes": hex.EncodeToString(c14Bytes([]string{"G(", "V", "M(", "EG8", ")M", "EG7"}))},
+		map[string]any{"byte_codec_input": "ff00", "script": "echo bin2hex(\"\\xff\\x00\"), base64_encode(...), urlencode(...), rawurlencode(...), decoders on the expected encodings"},
+		map[string]any{"codec_value": "[\"a\" => 9007199254740993, \"b\" => [3 => 1.5]]", "checks": "json_encode / serialize read back by the reference reader token by token; decode(encode(v)) === v"},
+	}
 	rep.Coverage["distinct_nontrivial"] = rejects + n2 + n3
 	rep.Coverage["protowire_reject_cases"] = rejects
 	rep.Coverage["exhaustive"] = true
